@@ -7,7 +7,7 @@ LEGS = [{"driver": "c14", "runner": ("ser", "Extract/ExtractSer.v", "Ser_model")
 # Props/SM2Premises.v (primality of the SM2 p and n by Pocklington certificates, SM2Facts from associativity alone, and the
 # corollaries for C01/C02/C03/C09/C13/C14) is built and re-checked by this check
 COQ_EXTRA_TARGETS = ["Props/SM2Premises.vo"]
-COQ_TIMEOUT = 3000
+COQ_TIMEOUT = 5400
 
 TECHNIQUE = ("Coq proofs of the round trip of every codec gmsm owns over function-by-function models (all values), tied to /repo by running the "
              "extracted models on the same inputs and comparing every produced byte; PEM/PBKDF2/AES paths and loaders checked by the property predicate")
